@@ -203,6 +203,47 @@ def run(rec, F, exceptions=None, only_adts=None, only_fields=None, field_type_re
                 used_exc.add(exk)
                 rec.inst(R, inst, ok=True, loc=fnloc, note="exception: " + exceptions[exk])
                 continue
+            # the trace of a struct field is unconditional: some read of the field sits on every returning path of trace()
+            # (an early return under an unrelated state test skips it; Option/enum payloads are read before they are tested)
+            if ok and tr and not adt["enum"]:
+                reads = set()
+                for bi_, b_ in enumerate(fn.blocks):
+                    if bi_ not in fn.reachable:
+                        continue
+                    for s_ in b_["s"]:
+                        for p_ in sem.places_in_rvalue(s_["r"]):
+                            sf_ = sem.self_field_of_place(p_)
+                            if sf_ and sf_[1] == fname:
+                                reads.add(bi_)
+                    t_ = b_["t"]
+                    if t_["k"] == "call":
+                        for a_ in t_["args"]:
+                            p_ = op_place(a_)
+                            sf_ = sem.self_field_of_place(p_) if p_ else None
+                            if sf_ and sf_[1] == fname:
+                                reads.add(bi_)
+                pd0 = fn.pdom.get(0, set()) | {0}
+                always = bool(reads & pd0)
+                if reads and not always:
+                    # or every path that skips the read delegates to the same trace on another instance (a chain: Compiler.enclosing)
+                    deleg = set(bi_ for bi_, t_ in fn.calls() if t_["f"] == fn.path)
+                    if deleg:
+                        from ..facts import succs as _succs
+                        seen_, st_ = set(), [0]
+                        escaped = False
+                        while st_:
+                            x_ = st_.pop()
+                            if x_ in seen_ or x_ in reads or x_ in deleg:
+                                continue
+                            seen_.add(x_)
+                            if fn.blocks[x_]["t"]["k"] == "return":
+                                escaped = True
+                            st_.extend(fn.succ(x_))
+                        always = not escaped
+                if reads and not always:
+                    rec.inst(R, inst + " on every path", ok=False, loc=fnloc)
+                    rec.finding(R, "F5.f/%s/%s/conditional" % (short, exk[1]), "trace() of %s reads the gc-bearing field `%s` only on some of its paths (an early return or a state test skips it): while the object is in that state whatever the field holds is not marked and is freed although still reachable" % (short, fname), loc=fnloc, fn=tr[0]["path"])
+                    continue
             rec.inst(R, inst, ok=ok, loc=fnloc)
             if not ok:
                 rec.finding(R, "F5.f/%s/%s" % (short, exk[1]),
